@@ -11,6 +11,9 @@ Trace monitor with three independent oracles (none imports sc3):
 bind(): the messages of a block must be the elements of exactly one bundle,
 in issue order, emitted at exit - and nothing at all when the block raises
 (harness exception at a random point, or a documented library exception).
+Observation outside the property (counted as
+observed_seti_negative_offset_addresses_neighbour, never a violation):
+Synth.seti with a negative index addresses the control before the array.
 Traffic is captured at the OSC interface (NRT score bytes / RT `_send`
 recorder) and decoded with vf/osc.py.
 """
@@ -33,6 +36,11 @@ ASSUMPTIONS = [
     "numeric ('float') command slots may carry an OSC int of the same value; "
     "int slots must carry an OSC int; an absent completion message may be "
     "omitted or spelled as int 0 (sclang)",
+    "OBSERVATION outside the property (counted, never a violation): Synth.seti "
+    "with a negative index addresses the control(s) before the arrayed control "
+    "(one-sided range test, same in sclang); counter "
+    "observed_seti_negative_offset_addresses_neighbour, note for the maintainer "
+    "in proposed_fixes/C17-seti-negative-offset.md",
     "objects created inside a block that raised are never used again "
     "(their creation command was never sent)",
 ]
